@@ -1,19 +1,27 @@
-(* C18 — lemmas about Model/C18.v *)
-From Verif Require Import Base.Common Base.Sweep Gen.Consts_default Gen.AnsiTab Gen.StrTab Model.C18.
+(* C18 — lemmas about Model/C18.v; the parts live in Proofs/C18_*.v *)
+From Verif Require Import Base.Common Base.Cstr Gen.Consts_default Gen.AnsiTab Gen.StrTab Model.C18.
+From Verif Require Export Proofs.C18_cmp Proofs.C18_lines Proofs.C18_ansi Proofs.C18_dbcs.
 
-(* ------------------------------------------------------------------ ESCAPE_FLAG *)
-Definition param_spec (c : Z) : bool := ((48 <=? c) && (c <=? 57)) || (c =? 59) || (c =? 61).
-Definition command_spec (c : Z) : bool := existsb (Z.eqb c) [65; 66; 67; 68; 72; 73; 74; 75; 102; 104; 108; 109; 115; 117].
-
-Lemma escape_flag_spec :
-  length ESCAPE_FLAG = 256%nat /\
-  forall c, 0 <= c < 256 -> is_escape_param c = param_spec c /\ is_escape_command c = command_spec c.
+(* every helper whose Go code indexes or slices (and so could panic) or loops on a condition (and so could spin)
+   returns normally on every input; the remaining helpers are total functions of the model by their type *)
+Lemma no_crash :
+  (forall s, exists ls, read_lines s = Ok ls) /\
+  (forall a, exists r, trim_dbcs a = Ok r) /\
+  (forall s flag, exists o, strip_ansi s flag = Ok o) /\
+  (forall s pos, exists st, dbcs_status s pos = Ok st) /\
+  (forall s, exists r, dbcs_safe_trim s = Ok r) /\
+  (forall title, exists r, subject_ex title = Ok r).
 Proof.
-  split; [vm_compute; reflexivity|].
-  intros c Hc.
-  pose (P := fun c : Z => Bool.eqb (is_escape_param c) (param_spec c) && Bool.eqb (is_escape_command c) (command_spec c)).
-  assert (H : P c = true).
-  { apply (sweep P 256); [vm_compute; reflexivity|lia]. }
-  unfold P in H. apply andb_true_iff in H. destruct H as [H1 H2].
-  split; apply Bool.eqb_prop; assumption.
+  split; [intros s; eexists; apply readline_split_lines|].
+  split; [intros a; destruct (trimdbcs_spec a) as [r [arr [H _]]]; eexists; exact H|].
+  split; [intros s flag; apply stripansi_total|].
+  split; [intros s pos; eexists; apply dbcs_status_spec|].
+  split; [intros s; destruct (safetrim_spec s) as [r [H _]]; eexists; exact H|].
+  intros title. destruct (subjectex_spec title) as [ty [pre [rest [H _]]]]. eexists; exact H.
 Qed.
+
+(* the inputs that used to panic *)
+Example no_crash_ex :
+  read_lines [10] = Ok [[]] /\ trim_dbcs [] = Ok ([], []) /\ strip_ansi [27; 91; 49; 50] 1 = Ok [] /\
+  dbcs_status [] 0 = Ok 0 /\ dbcs_safe_trim [164] = Ok [] /\ subject_ex [70; 119; 58] = Ok (2, []).
+Proof. vm_compute. repeat split. Qed.
